@@ -37,7 +37,7 @@ const ANY_CLASSES: &[&str] = &[
     "d-dot", "d-dot-dash", "d-grid", "d-grid-h", "d-grid-v", "d-hatch", "d-crosshatch", "d-stipple", "d-softshadow", "d-hardshadow", "d-surround",
 ];
 const PATTERN_FAMILIES: &[&str] = &["d-grid", "d-grid-h", "d-grid-v", "d-hatch", "d-crosshatch", "d-stipple"];
-const SUFFIXES: &[(&str, bool)] = &[("1", true), ("5", true), ("100", true), ("101", false), ("05", true), ("x", false), ("5x", false)];
+const SUFFIXES: &[(&str, bool)] = &[("1", true), ("5", true), ("100", true), ("101", false), ("05", true), ("x", false), ("5x", false), ("+5", false), ("-5", false), ("5.0", false)];
 
 /// does the reserved vocabulary define a rule for `class` when carried by an element named `el`?
 fn rule_expected(class: &str, el: &str) -> bool {
@@ -313,7 +313,36 @@ fn check_doc(d: &Doc, cfg: &Cfg, cfg_name: &str, sig_class: &str) -> CaseResult 
                                     // local styles are scoped to an id: it must be the root element's
                                     let text = String::from_utf8_lossy(a);
                                     if let Some(pos) = text.find("svg#") {
-                                        let scope: String = text[pos + 4..].chars().take_while(|c| !c.is_whitespace() && *c != '{').collect();
+                                        // the selector is a CSS identifier: `\` escapes the next character, `\31 ` is a code point
+                                        let raw: Vec<char> = text[pos + 4..].chars().collect();
+                                        let mut scope = String::new();
+                                        let mut k = 0;
+                                        while k < raw.len() {
+                                            let c = raw[k];
+                                            if c == '\\' && k + 1 < raw.len() {
+                                                let hex: String = raw[k + 1..].iter().take(6).take_while(|h| h.is_ascii_hexdigit()).collect();
+                                                if !hex.is_empty() {
+                                                    scope.push(char::from_u32(u32::from_str_radix(&hex, 16).unwrap_or(0xFFFD)).unwrap_or('\u{FFFD}'));
+                                                    k += 1 + hex.len();
+                                                    if raw.get(k) == Some(&' ') {
+                                                        k += 1;
+                                                    }
+                                                } else {
+                                                    scope.push(raw[k + 1]);
+                                                    k += 2;
+                                                }
+                                                continue;
+                                            }
+                                            if c.is_whitespace() || c == '{' || c == '.' || c == ':' || c == ',' || c == '>' {
+                                                break;
+                                            }
+                                            scope.push(c);
+                                            k += 1;
+                                        }
+                                        if raw.first().is_some_and(|c| c.is_ascii_digit()) || scope.is_empty() {
+                                            // (an identifier cannot start with an unescaped digit: the selector matches nothing)
+                                            scope = format!("<invalid selector #{scope}>");
+                                        }
                                         if ra.attr("id") != Some(scope.as_str()) {
                                             mk("local-style-scope-is-not-the-root-id", format!("{doc}\nrules are scoped to #{scope} but the root element has id {:?}", ra.attr("id")));
                                         }
@@ -427,6 +456,10 @@ pub fn run(tier: Tier) -> i32 {
             docs.push((Doc { body: format!("{pre}<svg>{}</svg>", carrier(c, ci % 5)), root: false, author: 0, root_attrs: String::new() }, ci % cfgs.len(), format!("fragment-with-later-svg/{c}")));
         }
     }
+    // classes carried by the elements of a nested SVG document which is passed through as it is
+    for (ci, c) in FAMILY_REPS.iter().enumerate() {
+        docs.push((Doc { body: format!("<svg xmlns=\"http://www.w3.org/2000/svg\"><rect width=\"5\" height=\"5\" class=\"{c}\"/><text x=\"1\" y=\"2\" class=\"{c}\">t</text></svg>"), root: true, author: ci % AUTHOR.len(), root_attrs: String::new() }, ci % cfgs.len(), format!("in-passed-through-svg/{c}")));
+    }
     // classes on the root element itself (with content, and as an empty root)
     for (ci, c) in vocab.iter().enumerate() {
         if FAMILY_REPS.contains(&c.as_str()) || ci % 7 == 0 {
@@ -437,6 +470,10 @@ pub fn run(tier: Tier) -> i32 {
     // local styles with an author-supplied id on the root: the scope must be an id the output has
     for c in FAMILY_REPS.iter().take(6) {
         docs.push((Doc { body: carrier(c, 2), root: true, author: 0, root_attrs: " id=\"mine\"".into() }, usize::MAX, format!("local-author-id/{c}")));
+    }
+    // ... whatever characters that id is made of
+    for (k, id) in ["fig.1", "a:b", "1st", "x.y:z-1", "\u{e9}t\u{e9}", "a b", ""].iter().enumerate() {
+        docs.push((Doc { body: carrier(FAMILY_REPS[k % 6], 2), root: true, author: 0, root_attrs: format!(" id=\"{id}\"") }, usize::MAX, format!("local-author-id-chars/{k}")));
     }
     // local styles requested but auto-styles off: nothing at all is injected, not even an id
     docs.push((Doc { body: carrier("d-red", 0), root: true, author: 0, root_attrs: String::new() }, usize::MAX - 1, "local-but-disabled".into()));
